@@ -760,12 +760,16 @@ fn shift(c: &mut Case, model: Model) {
     let mu = smin * smin + pr.l2;
     let round_w = 4.0 * (pr.n as f64) * EPS * big * (pr.n as f64).sqrt() / mu.sqrt();
     let thr = coef_slack(&pr, &rf, &y2, cfg.tol, smin, norm2v(&w1).max(norm2v(&w2))) + round_w;
-    c.ratio(&format!("{}.shift.coefficients", model.name()), norm2v(&dw), thr, &sg, || {
+    // same input-derived class as for the objective oracle: on raw columns whose norms differ by more than 30x one
+    // of the two fits may be a stalled (unconverged) one — open known finding, filed under its own signature
+    let sg_w = cap_sig(c, model, &d, &pr, &rf, &cfg, &sg, norm2v(&dw), thr);
+    c.ratio(&format!("{}.shift.coefficients", model.name()), norm2v(&dw), thr, &sg_w, || {
         format!("‖w(y+c) − w(y)‖ (z-units), c = {:e}; w(y) = {:?}, w(y+c) = {:?}, reference optimum {:?}", shiftv, w1, w2, rf.w)
     });
     let msd: Vec<f64> = (0..pr.p).map(|j| pr.means[j] / pr.stds[j]).collect();
     let bthr = 1e-9 * (big + f1.b.abs()) + norm2v(&msd) * thr;
-    c.ratio(&format!("{}.shift.intercept", model.name()), ((f2.b - f1.b) - shiftv).abs(), bthr, &sg, || {
+    let sg_b = cap_sig(c, model, &d, &pr, &rf, &cfg, &sg, ((f2.b - f1.b) - shiftv).abs(), bthr);
+    c.ratio(&format!("{}.shift.intercept", model.name()), ((f2.b - f1.b) - shiftv).abs(), bthr, &sg_b, || {
         format!("intercept(y+c) − intercept(y) = {:e}, c = {:e}", f2.b - f1.b, shiftv)
     });
 }
